@@ -106,15 +106,29 @@ type vsCase struct {
 	// probability of cancelling an unanswered request while the pending loop is between needsReload and the hand-over
 	CancelHot float64 `json:"cancel_hot"`
 	// a request is only submitted when every earlier one has finished and nothing is loaded (load / unload cycles)
-	Sequential bool `json:"sequential"`
+	// probability of finishing a request that holds a runner exactly while the pending loop is between needsReload
+	// and the hand-over for another request
+	FinishHot  float64 `json:"finish_hot"`
+	Sequential bool    `json:"sequential"`
 	// admission stage: every GetRunner call runs in its own controlled goroutine, so that the calls of several
 	// submitters interleave at the synchronisation operations inside GetRunner; hold_sched = probability with which the
 	// pending loop is kept parked while anything else can happen (the queue is not being drained)
-	ConcSubmit bool    `json:"conc_submit"`
-	HoldSched  float64 `json:"hold_sched"`
-	ExpireW    float64 `json:"expire_w"` // weight of the explicit-unload action (default 0.6, at most 3 per run; with a weight: 6)
-	FA         bool    `json:"fa"`       // OLLAMA_FLASH_ATTENTION=1
-	KVType     string  `json:"kv_type"`  // OLLAMA_KV_CACHE_TYPE
+	// the last GPU of the inventory gets total = free = a value for which the blocks of a model fit but not its output layer
+	LastGpuEdge bool   `json:"last_gpu_edge"`
+	Overhead    uint64 `json:"overhead"` // OLLAMA_GPU_OVERHEAD (bytes reserved per GPU)
+	// the mock servers report, per GPU, what the REAL llmServer.EstimatedVRAMByGPU returns for the REAL estimate of
+	// the tiny GGUF on the GPUs they were started on (instead of the case's vram figure)
+	RealVram bool `json:"real_vram"`
+	// allow the environment action "selfclose": the server process of a runner dies on its own while requests hold it
+	SelfClose bool `json:"self_close"`
+	// how the limits are spelled in the environment (key -> literal value, e.g. "\" 1 \""); a key that is missing is
+	// spelled as the plain decimal number.  The spellings of a case mean the same number to envconfig.
+	Spell      map[string]string `json:"spell"`
+	ConcSubmit bool              `json:"conc_submit"`
+	HoldSched  float64           `json:"hold_sched"`
+	ExpireW    float64           `json:"expire_w"` // weight of the explicit-unload action (default 0.6, at most 3 per run; with a weight: 6)
+	FA         bool              `json:"fa"`       // OLLAMA_FLASH_ATTENTION=1
+	KVType     string            `json:"kv_type"`  // OLLAMA_KV_CACHE_TYPE
 }
 
 type vsStep struct {
@@ -152,10 +166,29 @@ type vsMock struct {
 	vram   uint64
 	gpus   []string
 	closed int
+	dead   bool              // the server process died on its own: Ping fails from now on
+	rep    map[string]uint64 // real_vram: what the real EstimatedVRAMByGPU reports per GPU id
+	truth  map[string]uint64 // bytes the estimate put on each GPU (index-aligned GPUSizes); nil: vram on every GPU of gpus
+}
+
+// bytesOn: what this server really occupies on GPU id (ground truth for the fit oracle)
+func (m *vsMock) bytesOn(id string) uint64 {
+	if m.truth != nil {
+		return m.truth[id]
+	}
+	for _, g := range m.gpus {
+		if g == id {
+			return m.vram
+		}
+	}
+	return 0
 }
 
 func (m *vsMock) Ping(ctx context.Context) error {
 	alt := vhEnvChoice("mock.ping", 2)
+	if m.dead {
+		alt = 1 // nobody answers the health check of a process that has exited
+	}
 	if alt == 1 {
 		m.r.ev("ping", m.id, "fail")
 		return errors.New("mock ping failure")
@@ -197,6 +230,10 @@ func (m *vsMock) Close() error {
 func (m *vsMock) EstimatedVRAM() uint64  { return m.vram }
 func (m *vsMock) EstimatedTotal() uint64 { return m.vram }
 func (m *vsMock) EstimatedVRAMByGPU(gpuid string) uint64 {
+	if m.rep != nil {
+		m.r.ev("est", m.id, gpuid)
+		return m.rep[gpuid]
+	}
 	for _, g := range m.gpus {
 		if g == gpuid {
 			m.r.ev("est", m.id, gpuid)
@@ -216,6 +253,7 @@ type vsReqState struct {
 	cancel    func()
 	replies   int
 	returned  bool // conc_submit: GetRunner has returned
+	rid       int  // runner of the success reply (-1: none yet)
 }
 
 type vsRun struct {
@@ -240,6 +278,7 @@ type vsRun struct {
 	srv     *Server
 	names   []string
 	waitCtx map[*vhG]context.Context
+	fhState int // finish_hot steering
 }
 
 func (r *vsRun) ev(a ...any) {
@@ -317,6 +356,8 @@ func (r *vsRun) modelIndex(path string) int {
 
 func (r *vsRun) newServer(gpus discover.GpuInfoList, model string, f *ggml.GGML, adapters []string, projectors []string, opts api.Options, numParallel int) (llm.LlamaServer, error) {
 	mi := r.modelIndex(model)
+	orig := gpus
+	ov0 := envconfig.GpuOverhead()
 	ids := []string{}
 	for _, g := range gpus {
 		ids = append(ids, g.Library+":"+g.ID)
@@ -339,9 +380,30 @@ func (r *vsRun) newServer(gpus discover.GpuInfoList, model string, f *ggml.GGML,
 			faReally = false
 		}
 	}
+	// what the server is started with: the real estimate on the GPUs passed, under the real settings
+	var realEst llm.MemoryEstimate
+	if f != nil && len(gpus) > 0 {
+		realEst = llm.EstimateGPULayers(gpus, f, projectors, opts, numParallel)
+	}
 	if envconfig.FlashAttention() && !faReally {
+		defer os.Setenv("OLLAMA_FLASH_ATTENTION", os.Getenv("OLLAMA_FLASH_ATTENTION"))
 		os.Setenv("OLLAMA_FLASH_ATTENTION", "0")
-		defer os.Setenv("OLLAMA_FLASH_ATTENTION", "1")
+	}
+	// The oracle never lets the estimator subtract: the reserve per GPU (OLLAMA_GPU_OVERHEAD) is taken off the free
+	// memory here, saturating at 0, and the estimator runs with a reserve of 0 - the same verdict, no wrap-around.
+	if ov := envconfig.GpuOverhead(); ov > 0 {
+		defer os.Setenv("OLLAMA_GPU_OVERHEAD", os.Getenv("OLLAMA_GPU_OVERHEAD"))
+		os.Setenv("OLLAMA_GPU_OVERHEAD", "0")
+		g2 := append(discover.GpuInfoList{}, gpus...)
+		for i := range g2 {
+			if g2[i].FreeMemory > ov {
+				g2[i].FreeMemory -= ov
+			} else {
+				g2[i].FreeMemory = 0
+			}
+		}
+		gpus = g2
+		estInfo = append(estInfo, ov)
 	}
 	if f != nil && len(gpus) == 1 && gpus[0].Library == "cpu" {
 		est := llm.EstimateGPULayers(gpus, f, projectors, opts, numParallel)
@@ -362,9 +424,63 @@ func (r *vsRun) newServer(gpus discover.GpuInfoList, model string, f *ggml.GGML,
 	} else if f == nil {
 		fit = -1
 	}
+	// Second verdict, on the harness' own books: the free memory of each GPU is what the inventory reports minus what
+	// the running servers REALLY occupy there (per-GPU bytes of their estimates, index-aligned), not what the
+	// scheduler derived through EstimatedVRAMByGPU / updateFreeSpace.
+	fit2 := fit
+	attr := [][]uint64{}
+	if f != nil && len(orig) > 0 && orig[0].Library != "cpu" {
+		ov := ov0
+		g3 := append(discover.GpuInfoList{}, orig...)
+		for i := range g3 {
+			var spec *vsGpu
+			for k := range r.c.Gpus {
+				if r.c.Gpus[k].ID == g3[i].ID {
+					spec = &r.c.Gpus[k]
+				}
+			}
+			if spec == nil {
+				continue
+			}
+			used := uint64(0)
+			for _, m := range r.srvs {
+				if m.closed == 0 {
+					used += m.bytesOn(g3[i].ID)
+				}
+			}
+			free := spec.Free
+			if used >= spec.Total {
+				free = 0
+			} else if spec.Total-used < free {
+				free = spec.Total - used
+			}
+			if free > ov {
+				free -= ov
+			} else {
+				free = 0
+			}
+			g3[i].FreeMemory = free
+		}
+		est := llm.EstimateGPULayers(g3, f, projectors, opts, numParallel)
+		need := int(f.KV().BlockCount()) + 1
+		if opts.NumGPU >= 0 {
+			need = opts.NumGPU
+		}
+		fit2 = 1
+		if !(est.Layers > 0 && est.Layers >= need) {
+			fit2 = 0
+		}
+		for i, g := range orig {
+			sz := uint64(0)
+			if i < len(realEst.GPUSizes) {
+				sz = realEst.GPUSizes[i]
+			}
+			attr = append(attr, []uint64{g.FreeMemory, sz, llm.VerifEstimatedVRAMByGPU(orig, realEst, g.ID), g3[i].FreeMemory})
+		}
+	}
 	alt := vhEnvChoice("mock.newserver", 2)
 	if alt == 1 {
-		r.ev("newserver", mi, -1, opts.NumCtx, opts.NumGPU, numParallel, ids, adapters, fit, len(r.s.loaded), estInfo)
+		r.ev("newserver", mi, -1, opts.NumCtx, opts.NumGPU, numParallel, ids, adapters, fit, len(r.s.loaded), estInfo, attr, fit2)
 		return nil, errors.New("mock newServer failure")
 	}
 	m := &vsMock{r: r, id: len(r.srvs), model: mi}
@@ -374,8 +490,17 @@ func (r *vsRun) newServer(gpus discover.GpuInfoList, model string, f *ggml.GGML,
 	for _, g := range gpus {
 		m.gpus = append(m.gpus, g.ID)
 	}
+	if r.c.RealVram && f != nil && len(orig) > 0 && orig[0].Library != "cpu" {
+		m.rep, m.truth = map[string]uint64{}, map[string]uint64{}
+		for i, g := range orig {
+			m.rep[g.ID] = llm.VerifEstimatedVRAMByGPU(orig, realEst, g.ID)
+			if i < len(realEst.GPUSizes) {
+				m.truth[g.ID] = realEst.GPUSizes[i]
+			}
+		}
+	}
 	r.srvs = append(r.srvs, m)
-	r.ev("newserver", mi, m.id, opts.NumCtx, opts.NumGPU, numParallel, ids, adapters, fit, len(r.s.loaded), estInfo)
+	r.ev("newserver", mi, m.id, opts.NumCtx, opts.NumGPU, numParallel, ids, adapters, fit, len(r.s.loaded), estInfo, attr, fit2)
 	return m, nil
 }
 
@@ -483,6 +608,7 @@ func (r *vsRun) submit(q int) {
 			} else {
 				closed = 1
 			}
+			rs.rid = rid
 			r.ev("reply", q, "ok", rid, closed)
 		}()
 		return
@@ -528,6 +654,7 @@ func (r *vsRun) listen(q int, rs *vsReqState, okCh chan *runnerRef, errCh chan e
 						r.mu.Unlock()
 					}
 				}
+				rs.rid = rid
 				r.ev("reply", q, "ok", rid, closed)
 			case err := <-errCh:
 				rs.replies++
@@ -541,6 +668,16 @@ func (r *vsRun) listen(q int, rs *vsReqState, okCh chan *runnerRef, errCh chan e
 			}
 		}
 	}
+}
+
+// heldBy: some request that was handed runner id has not finished yet
+func (r *vsRun) heldBy(id int) bool {
+	for _, rs := range r.reqs {
+		if rs.replies > 0 && !rs.cancelled && rs.rid == id {
+			return true
+		}
+	}
+	return false
 }
 
 func (r *vsRun) expire(m int) {
@@ -600,6 +737,16 @@ func (r *vsRun) perform(c vsChoice) bool {
 			return false
 		}
 		r.expire(c.M)
+	case "selfclose":
+		// the server process of runner c.M (a runner id here) exits on its own while a request holds the runner
+		if !r.c.SelfClose || c.M < 0 || c.M >= len(r.srvs) || r.srvs[c.M].dead || r.srvs[c.M].closed > 0 {
+			return false
+		}
+		if !r.heldBy(c.M) {
+			return false
+		}
+		r.srvs[c.M].dead = true
+		r.ev("selfclose", c.M)
 	case "tick":
 		if c.Ms <= 0 {
 			return false
@@ -718,6 +865,49 @@ func (r *vsRun) randomChoice() (vsChoice, bool) {
 	c := r.c
 	all := r.internalOpts()
 	ints := all
+	if c.FinishHot > 0 {
+		// steer towards: the last holder's finish is processed (refCount 0, expired event queued) while the pending
+		// loop stands between needsReload and the hand-over for the next request, which then takes the runner
+		inReuse := func(g *vhG) bool {
+			return strings.HasPrefix(g.Name, "Run.go1#") && (g.Site == "mock.ping" || g.Site == "useLoadedRunner.lock1")
+		}
+		var pOpt *vsOpt
+		for i := range all {
+			if inReuse(all[i].g) {
+				pOpt = &all[i]
+			}
+		}
+		switch r.fhState {
+		case 0:
+			if pOpt != nil && r.rng.Float64() < c.FinishHot {
+				for q, rs := range r.reqs {
+					if rs.submitted && !rs.cancelled && rs.replies > 0 {
+						r.fhState = 1
+						return vsChoice{A: "cancel", Q: q}, true
+					}
+				}
+			}
+		case 1:
+			if pOpt == nil {
+				r.fhState = 0
+			} else if len(r.s.expiredCh) > 0 {
+				r.fhState = 2
+				return pOpt.c, true
+			} else {
+				for _, o := range all {
+					if !strings.HasPrefix(o.g.Name, "Run.go1#") && o.g.Kind != "env" {
+						return o.c, true
+					}
+				}
+				r.fhState = 0
+			}
+		case 2:
+			if pOpt != nil {
+				return pOpt.c, true
+			}
+			r.fhState = 0
+		}
+	}
 	if c.CancelHot > 0 {
 		hot := false
 		for _, g := range r.ctl.Parked() {
@@ -818,6 +1008,15 @@ func (r *vsRun) randomChoice() (vsChoice, bool) {
 				w = append(w, 2)
 			} else {
 				w = append(w, 0.4)
+			}
+		}
+	}
+	if c.SelfClose {
+		for id, m := range r.srvs {
+			if !m.dead && m.closed == 0 && r.heldBy(id) {
+				env = append(env, vsChoice{A: "selfclose", M: id})
+				w = append(w, 1.2)
+				break
 			}
 		}
 	}
@@ -1002,19 +1201,30 @@ func vsRunCase(dir string, c *vsCase) (obs *vsObs) {
 			obs.Panic = fmt.Sprint(p)
 		}
 	}()
+	setenv := func(key, plain string) {
+		if s, ok := c.Spell[key]; ok {
+			os.Setenv(key, s)
+		} else {
+			os.Setenv(key, plain)
+		}
+	}
 	if c.Max > 0 {
-		os.Setenv("OLLAMA_MAX_LOADED_MODELS", strconv.Itoa(c.Max))
+		setenv("OLLAMA_MAX_LOADED_MODELS", strconv.Itoa(c.Max))
 	} else {
 		os.Unsetenv("OLLAMA_MAX_LOADED_MODELS")
 	}
-	os.Setenv("OLLAMA_MAX_QUEUE", strconv.Itoa(c.MaxQ))
-	os.Setenv("OLLAMA_NUM_PARALLEL", strconv.Itoa(c.Par))
+	setenv("OLLAMA_MAX_QUEUE", strconv.Itoa(c.MaxQ))
+	setenv("OLLAMA_NUM_PARALLEL", strconv.Itoa(c.Par))
 	os.Unsetenv("OLLAMA_KEEP_ALIVE")
 	os.Unsetenv("OLLAMA_SCHED_SPREAD")
 	os.Unsetenv("OLLAMA_FLASH_ATTENTION")
 	os.Unsetenv("OLLAMA_KV_CACHE_TYPE")
+	os.Unsetenv("OLLAMA_GPU_OVERHEAD")
+	if c.Overhead > 0 {
+		setenv("OLLAMA_GPU_OVERHEAD", strconv.FormatUint(c.Overhead, 10))
+	}
 	if c.FA {
-		os.Setenv("OLLAMA_FLASH_ATTENTION", "1")
+		setenv("OLLAMA_FLASH_ATTENTION", "1")
 	}
 	if c.KVType != "" {
 		os.Setenv("OLLAMA_KV_CACHE_TYPE", c.KVType)
@@ -1060,8 +1270,17 @@ func vsRunCase(dir string, c *vsCase) (obs *vsObs) {
 				}
 			}
 		}
+		if c.LastGpuEdge && len(c.Gpus) > 0 && len(r.models) > 0 {
+			k := len(c.Gpus) - 1
+			g := c.Gpus[k]
+			g.Total, g.Free = 24000000000, 24000000000
+			if e := vsEdgeFree(r.models[0].ModelPath, g, 1, vsModel{}); e > 0 {
+				c.Gpus[k].Total, c.Gpus[k].Free = e, e
+				obs.EdgeFree = e
+			}
+		}
 		for _, q := range c.Reqs {
-			r.reqs = append(r.reqs, &vsReqState{spec: q})
+			r.reqs = append(r.reqs, &vsReqState{spec: q, rid: -1})
 		}
 		r.ctl = vhNewCtl()
 		defer r.ctl.Stop()
